@@ -285,6 +285,7 @@ func checkC02(c *Ctx) (string, error) {
 	// ---------------------------------------------------------------- R02.5
 	checkCasts(c, p)
 	checkIntToFloat(c, p)
+	checkFloatNegation(c, p)
 
 	// ---------------------------------------------------------------- R02.6 (runtime module)
 	rw, err := loadRT(defaultCfg, "internal/runtime")
